@@ -386,3 +386,61 @@ MUTATIONS += [
       find="                api.key_value_entry_remove(handle)?;\n                // Tombstone the non fungible\n                // TODO: RUID non fungibles with no data don't need to go through this process\n                api.key_value_entry_lock(handle)?;\n                api.key_value_entry_close(handle)?;",
       replace="                api.key_value_entry_remove(handle)?;\n                // Tombstone the non fungible (generated RUID ids can never be minted again, so they need none)\n                match &id {\n                    NonFungibleLocalId::RUID(..) => {}\n                    _ => {\n                        api.key_value_entry_lock(handle)?;\n                    }\n                }\n                api.key_value_entry_close(handle)?;"),
 ]
+MUTATIONS += [
+ dict(name="benign-c40-lock-test-first-then-early-returns", props=["C40"], benign=True, file="radix-engine/src/blueprints/access_controller/v2/state_machine.rs",
+      find="""        match self.state {
+            (PrimaryRoleLockingState::Unlocked, _, _, _, _) => {
+                if self.controlled_asset.0 .0.is_internal_fungible_vault() {
+                    self.controlled_asset
+                        .create_proof_of_amount(self.controlled_asset.amount(api)?, api)
+                } else {
+                    // u32::MAX is used as vault size is limited to maximum bucket size which is constrained
+                    // by same costing mechanism so we should never be in any danger of never being able to produce proofs
+                    let non_fungible_local_ids = self
+                        .controlled_asset
+                        .non_fungible_local_ids(u32::MAX, api)?;
+                    self.controlled_asset
+                        .create_proof_of_non_fungibles(non_fungible_local_ids, api)
+                }
+            }
+            _ => access_controller_runtime_error!(OperationRequiresUnlockedPrimaryRole),
+        }
+""",
+      replace="""        if !matches!(self.state.0, PrimaryRoleLockingState::Unlocked) {
+            return access_controller_runtime_error!(OperationRequiresUnlockedPrimaryRole);
+        }
+        if !self.controlled_asset.0 .0.is_internal_fungible_vault() {
+            let non_fungible_local_ids = self
+                .controlled_asset
+                .non_fungible_local_ids(u32::MAX, api)?;
+            return self
+                .controlled_asset
+                .create_proof_of_non_fungibles(non_fungible_local_ids, api);
+        }
+        self.controlled_asset
+            .create_proof_of_amount(self.controlled_asset.amount(api)?, api)
+"""),
+ dict(name="benign-c10-no-shortfall-early-return", props=["C10"], benign=True, file="radix-engine/src/blueprints/resource/fungible/fungible_vault.rs",
+      find="""        // Take from liquid if needed
+        if amount > max_locked {
+            let delta = amount
+                .checked_sub(max_locked)
+                .ok_or(RuntimeError::ApplicationError(
+                    ApplicationError::VaultError(VaultError::DecimalOverflow),
+                ))?;
+            Self::internal_take(delta, api)?;
+        }
+""",
+      replace="""        // Take from liquid if needed
+        if amount <= max_locked {
+            // already covered by the locked maximum
+        } else {
+            let delta = amount
+                .checked_sub(max_locked)
+                .ok_or(RuntimeError::ApplicationError(
+                    ApplicationError::VaultError(VaultError::DecimalOverflow),
+                ))?;
+            Self::internal_take(delta, api)?;
+        }
+"""),
+]
